@@ -7,8 +7,8 @@ props=${*:-C01 C02 C03 C04 C05 C06 C07 C08 C09 C10 C11 C12 C13 C14 C15 C16 C17 C
 cd "$(dirname "$0")/.."
 for p in $props; do
   s=$(date +%s)
-  ./check $p --tier $tier > /tmp/run_all_$p.log 2>&1
+  ./check $p --tier $tier > /tmp/run_all_$$_$p.log 2>&1
   rc=$?
   e=$(date +%s)
-  echo "$p rc=$rc $((e-s))s $(grep -v '^<<' /tmp/run_all_$p.log | tail -1 | cut -c1-200)"
+  echo "$p rc=$rc $((e-s))s $(grep -v '^<<' /tmp/run_all_$$_$p.log | tail -1 | cut -c1-200)"
 done
